@@ -45,12 +45,19 @@ type c08desc struct {
 	ncerts                           int
 	der, signedby, time, uris, cn    string
 	sig, nonce, id, via, live, decoy string
+	// unauth: the honest router under test has UnauthOk set (as every simulation server has, also
+	// over TLS): `c08 hsu …`. Nothing on a TLS connection may depend on it.
+	unauth bool
 }
 
 var c08keysOrder = []string{"role", "suite", "tlsv", "op", "them", "ncerts", "der", "signedby", "time", "uris", "cn", "sig", "nonce", "id", "via", "live", "decoy"}
 
 func (d c08desc) line() string {
-	return fmt.Sprintf("c08 hs role=%s suite=%s tlsv=%s op=%s them=%s ncerts=%d der=%s signedby=%s time=%s uris=%s cn=%s sig=%s nonce=%s id=%s via=%s live=%s decoy=%s",
+	op := "hs"
+	if d.unauth {
+		op = "hsu"
+	}
+	return fmt.Sprintf("c08 "+op+" role=%s suite=%s tlsv=%s op=%s them=%s ncerts=%d der=%s signedby=%s time=%s uris=%s cn=%s sig=%s nonce=%s id=%s via=%s live=%s decoy=%s",
 		d.role, d.suite, d.tlsv, d.op, d.them, d.ncerts, d.der, d.signedby, d.time, d.uris, d.cn, d.sig, d.nonce, d.id, d.via, d.live, d.decoy)
 }
 
@@ -101,9 +108,10 @@ func c08timeValid(t string) bool { return c08in(t, "ok", "endsoon", "juststarted
 func c08parse(line string) (c08desc, bool) {
 	var d c08desc
 	tk := strings.Fields(line)
-	if len(tk) != 2+len(c08keysOrder) || tk[0] != "c08" || tk[1] != "hs" {
+	if len(tk) != 2+len(c08keysOrder) || tk[0] != "c08" || (tk[1] != "hs" && tk[1] != "hsu") {
 		return d, false
 	}
+	d.unauth = tk[1] == "hsu"
 	m := map[string]string{}
 	for _, t := range tk[2:] {
 		kv := strings.Split(t, "=")
